@@ -1,0 +1,39 @@
+//go:build verif && linux
+// +build verif,linux
+
+package netpoll
+
+import (
+	"sync/atomic"
+
+	"rcproxy/core/internal/queue"
+)
+
+// VerifRunTasks runs, in order, every task currently queued on the poller
+// (urgent queue first, then the low-priority queue, including tasks that get
+// queued while running) exactly like Polling does after an eventfd wake-up,
+// but without waiting on epoll. It returns the number of tasks run and the
+// first non-nil task error.
+func (p *Poller) VerifRunTasks() (n int, err error) {
+	for {
+		task := p.urgentAsyncTaskQueue.Dequeue()
+		if task == nil {
+			task = p.asyncTaskQueue.Dequeue()
+		}
+		if task == nil {
+			break
+		}
+		if e := task.Run(task.Arg); e != nil && err == nil {
+			err = e
+		}
+		queue.PutTask(task)
+		n++
+	}
+	atomic.StoreInt32(&p.wakeupCall, 0)
+	return
+}
+
+// VerifPendingTasks reports whether any task is queued.
+func (p *Poller) VerifPendingTasks() bool {
+	return !p.asyncTaskQueue.IsEmpty() || !p.urgentAsyncTaskQueue.IsEmpty()
+}
